@@ -236,6 +236,8 @@ class ShimEvent(threading.Event):
         self.flag = False
 
     def wait(self, timeout=None):
+        if W.current() is not None:
+            W.point("eventer", ev=self.name)       # the caller has decided to wait; the flag is looked at after this point
         if self.flag:
             return True
         due = None if timeout is None else W.now + timeout
@@ -599,6 +601,8 @@ class TaskDriver:
             return "done"
         if g.status == "blocked" and g.at[0] == "evwait":
             return "evwait"
+        if g.at[0] == "eventer":
+            return "chk"
         return "new"
 
     def _tpc(self):
@@ -841,7 +845,7 @@ class PerDriver:
             pc = "done" if g.error is None else "crashed:%s" % type(g.error).__name__
         else:
             kind, info = g.at
-            pc = {"new": "new", "isset": "isset", "action": "act", "evwait": "wait", "interval": "ivl"}.get(kind)
+            pc = {"new": "new", "isset": "isset", "action": "act", "evwait": "wait", "interval": "ivl", "eventer": "w0"}.get(kind)
             if kind == "sleep":
                 pc = {5: "x5", 30: "x30", self.POLL: "poll"}.get(info["secs"], "sleep%s" % info["secs"])
             if kind == "evwait" and info["timeout"] != self.INTERVAL:
@@ -904,3 +908,398 @@ class PerDriver:
                 self.pv = at[1]["value"]
         else:
             raise HarnessDrift("unknown action %r" % (label,))
+
+
+class _StubId:
+    def __init__(self, name, stage):
+        self.componentName, self.stageIndex = name, stage
+
+
+class StubJob:
+    """What SimulatorTask reads of a component specification."""
+
+    def __init__(self, workdir, attrs):
+        self.identification = _StubId("simjob", 0)
+        self.customAttributes = dict(attrs)
+        self.producers = {}
+        self.workdir = workdir
+
+    def setOption(self, key, value):
+        self.customAttributes[key] = value
+
+
+class _StubExecutor:
+    def __init__(self, workdir):
+        self.workingDir = workdir
+
+
+def _setup_sim():
+    if "sim" in _installed:
+        return _installed["sim"]
+    _setup_modules()
+    import experiment.model.executors as ex
+    import experiment.runtime.backend_interfaces.task_simulator as ts
+    real = ex.CommandsFromSpecification
+
+    def commands(job, *a, **k):
+        if isinstance(job, StubJob):
+            return None, _StubExecutor(job.workdir), None
+        return real(job, *a, **k)
+    ex.CommandsFromSpecification = commands
+    ts.Thread = ShimThread
+    ts.Event = ShimEvent
+    ts.Condition = ShimCondition
+    ts.time = time_ns()
+    ts.datetime = datetime_ns()
+    _installed["sim"] = ts
+    return ts
+
+
+class SimDriver:
+    """One SimulatorTask: run thread, poll threads, callers of kill()/terminate()."""
+
+    FIELDS = ("srs", "srr", "sos", "sor", "sfe", "srun", "spoll", "snpoll", "scode", "sunmet", "snotified", "skills", "sfile", "scall",
+              "swait", "sseen")
+    STATE = {0: "submitted", 1: "executing", 3: "finished"}
+
+    def __init__(self, scratch):
+        self.ts = _setup_sim()
+        W.stop_all()
+        W.reset()
+        W.spawn_hook = self._spawn_hook
+        self.dir = os.path.join(scratch, "sim_%d" % os.getpid())
+        os.makedirs(self.dir, exist_ok=True)
+        for f in os.listdir(self.dir):
+            os.unlink(os.path.join(self.dir, f))
+        self.task = None
+        self.run_g = None
+        self.poll_g = None
+        self.npoll = 0
+        self.caller = None
+        self.waiter = None
+        self.seen = ["-", NORC, "-", "-"]
+        self.nkills = 0
+        self.code = self.unmet = None
+
+    def close(self):
+        W.stop_all()
+
+    def _spawn_hook(self, target, name):
+        n = getattr(target, "__name__", "")
+        return ("sim-" + n, (self.ts.__file__,))
+
+    def _threads(self):
+        self.run_g = next((g for g in W.threads if g.role == "sim-_run"), None)
+        polls = [g for g in W.threads if g.role == "sim-poll"]
+        self.npoll = len(polls) - 1
+        self.poll_g = polls[-1] if polls else None
+
+    def data(self):
+        t = self.task
+        if t is None:
+            return None
+        c = t._sim_condition
+        return (t._real_state, t._real_return_code, t._observed_state, t._observed_return_code, t._finished_event.flag,
+                tuple(sorted(f for f in os.listdir(self.dir) if f in ("finished.txt", "killed.txt"))), len(W.threads), tuple(self.seen))
+
+    def _notified(self):
+        g = self.run_g
+        if g is not None and g.status == "blocked" and g.at[0] == "condwait":
+            return bool(g.can_run())
+        return None
+
+    def _stat(self, g, none="none"):
+        if g is None:
+            return none
+        if g.status == "done":
+            return "done"
+        if g.status == "blocked":
+            return g.at[0]
+        if g.at[0] == "eventer":
+            return "chk"
+        return "ready"
+
+    def project(self):
+        t = self.task
+        if t is None:
+            return dict(srs="none", srr=NORC, sos="none", sor=NORC, sfe=False, srun="none", spoll="none", snpoll=0, sfile="-", lock="-",
+                        scode=None, sunmet=None, snotified=None, skills=0, scall="idle", swait="idle", sseen=self.seen)
+        self._threads()
+        files = set(os.listdir(self.dir))
+        c = t._sim_condition
+        return dict(srs=self.STATE.get(t._real_state, t._real_state), srr=_rc(t._real_return_code), sos=self.STATE.get(t._observed_state, t._observed_state),
+                    sor=_rc(t._observed_return_code), sfe=t._finished_event.flag, srun=self._stat(self.run_g), spoll=self._stat(self.poll_g),
+                    snpoll=self.npoll, sfile="finished" if "finished.txt" in files else "killed" if "killed.txt" in files else "-",
+                    lock="-" if c.owner is None else getattr(c.owner, "role", str(c.owner)), scode=self.code, sunmet=self.unmet,
+                    snotified=self._notified(), skills=self.nkills, scall=self._stat(self.caller, "idle"), swait=self._stat(self.waiter, "idle"),
+                    sseen=self.seen)
+
+    def thread_step(self, g, **kw):
+        if g is None:
+            raise NotEnabled("no such thread")
+        before = self.data()
+        while True:
+            at = W.step(g, **kw)
+            kw = {}
+            if at[0] != "line" or self.data() != before:
+                return at
+
+    def view(self):
+        t = self.task
+        out = []
+        for what in ("isAlive", "returncode", "exitReason", "status"):
+            try:
+                v = t.isAlive() if what == "isAlive" else getattr(t, what)
+                if what == "isAlive":
+                    v = "T" if v is True else "F" if v is False else repr(v)
+                elif what == "returncode":
+                    v = _rc(v)
+                elif v is None:
+                    v = "None"
+            except Exception as e:      # noqa
+                v = "raised %s" % type(e).__name__
+            out.append(v)
+        return out
+
+    @classmethod
+    def spec_state(cls, arr):
+        d = dict(zip(cls.FIELDS, arr))
+        held = d["srun"] in ("x1", "u1", "e2", "e3", "f1", "k1")
+        waiting = d["srun"] == "cwait"
+        d["srun"] = {"new": "ready", "cwait": "condwait", "x1": "ready", "u1": "ready", "e2": "ready", "e3": "ready", "f1": "ready", "k1": "ready"}.get(d["srun"], d["srun"])
+        d["spoll"] = {"new": "ready", "a": "ready", "b": "ready", "c": "ready"}.get(d["spoll"], d["spoll"])
+        d["scall"] = {"new": "ready", "k1": "ready"}.get(d["scall"], d["scall"])
+        d["swait"] = {"new": "ready", "blocked": "evwait"}.get(d["swait"], d["swait"])
+        d["lock"] = "sim-_run" if held else "-"
+        if not waiting:
+            d["snotified"] = None
+        if d["srs"] == "none":
+            d["scode"], d["sunmet"] = None, None
+        return d
+
+    def apply(self, label):
+        op, arg = label[0], label[1]
+        if op == "Create":
+            code, unmet = label[1], label[2]
+            attrs = {"sim_expected_exit_code": str(code), "sim_range_schedule_overhead": "2", "sim_range_execution_time": "7"}
+            job = StubJob(self.dir, attrs)
+            if unmet:
+                job.identification.stageIndex = 1
+                job.producers = {"stage0.producer": _StubProducer(os.path.join(self.dir, "nowhere"))}
+            self.code, self.unmet = code, unmet
+            self.task = self.ts.SimulatorTask(job)
+            self._threads()
+            if self.run_g is None or self.poll_g is None:
+                raise NotEnabled("SimulatorTask() did not start its two threads")
+        elif op == "R":
+            self.thread_step(self.run_g, **({"wake": "timeout"} if arg == "timeout" else {}))
+        elif op == "P":
+            self._threads()
+            self.thread_step(self.poll_g, **({"wake": "timeout"} if arg == "timeout" else {}))
+        elif op == "Kill":
+            task = self.task
+            self.nkills += 1
+            self.caller = W.spawn(lambda: getattr(task, arg)(), name="caller", role="caller", trace=(self.ts.__file__,))
+        elif op == "K":
+            self.thread_step(self.caller)
+        elif op == "WaitCall":
+            task = self.task
+
+            def body():
+                task.wait()
+                self.seen = self.view()
+            self.waiter = W.spawn(body, name="observer", role="observer", trace=(self.ts.__file__,))
+        elif op == "O":
+            self.thread_step(self.waiter)
+        elif op == "View":
+            return self.view()
+        else:
+            raise HarnessDrift("unknown action %r" % (label,))
+
+
+class _StubCommand:
+    def __init__(self, workdir):
+        self.workingDir = workdir
+
+
+class _StubProducer:
+    def __init__(self, workdir):
+        self.identification = _StubId("producer", 0)
+        self.command = _StubCommand(workdir)
+
+
+# ----------------------------------------------------------------------------------------------------------------------
+# code -> spec: seeded random lock-stepped runs, one record (label, result, projection) per step
+
+def _may_raw(g):
+    return g is not None and g.status in ("new", "ready") and g.at[0] in ("new", "line")
+
+
+def random_task_run(rnd, nobs, mon_kind, test_kind, max_steps):
+    d = TaskDriver(nobs, mon_kind, test_kind)
+    trace = []
+    raw = rnd.random() < 0.6
+    try:
+        def proj():
+            p = d.project()
+            return [p["k"], p["st"], p["disp"], p["rc"], p["lock"], p["w"], p["fin"], p["epoch"], p["ev"], p["opc"], p["seen"], p["sigs"],
+                    p["late"], p["lost"], p["dm"], p["tpc"], p["tsaw"], p["tval"], p["cancel"], p["timers"], p["nact"], p["nerr"], p["terr"],
+                    p["actc"]]
+
+        def do(label, stepper=None):
+            r = stepper() if stepper is not None else d.apply(label)
+            res = r if label[0] == "Call" else 0
+            trace.append([label[0], label[1], res, proj()])
+
+        def tstep(g):
+            if raw and _may_raw(g) and rnd.random() < 0.8:
+                W.step(g)
+            else:
+                d._thread_step(g)
+        if test_kind == "task" or rnd.random() < 0.5:
+            if rnd.random() < 0.04:
+                do(["Create", "fail"])
+            else:
+                do(["Create", rnd.choice(["die", "die", "ignore"])])
+        p_env = rnd.choice([0.05, 0.15, 0.3])
+        for _ in range(max_steps):
+            t = d.task
+            opts = []
+            if t is not None:
+                if K.procs[t.pid]["state"] == "run":
+                    opts.append((p_env, lambda: do(["ProcExit", rnd.choice([0, 0, 1, 3, 24, 255])])))
+                    opts.append((p_env / 2, lambda: do(["ExtSignal", rnd.choice([9, 9, 24, 11, 2] + ([15] if K.procs[t.pid]["disp"] == "die" else []))])))
+                for c in ("kill", "terminate"):
+                    opts.append((0.12, lambda c=c: do(["Call", c])))
+                for c in ("poll", "isAlive", "exitReason", "status"):
+                    opts.append((0.12, lambda c=c: do(["Call", c])))
+                if d.waiter is not None and d.waiter.runnable():
+                    opts.append((1.0, lambda: do(["W", 0], lambda: tstep(d.waiter))))
+                for o in range(1, nobs + 1):
+                    if o not in d.obs:
+                        opts.append((0.15, lambda o=o: do(["WaitCall", o])))
+                    elif d.obs[o].runnable():
+                        opts.append((0.6, lambda o=o: do(["O", o], lambda: tstep(d.obs[o]))))
+            if mon_kind != "none":
+                if d.mstate == "off" and (t is not None or test_kind == "env"):
+                    opts.append((0.3, lambda: do(["MonStart", 0])))
+                if not d.cancel.flag and d.mstate != "off":
+                    opts.append((0.05, lambda: do(["Cancel", 0])))
+                if W.timers and (d.tick is None or d.tick.status == "done"):
+                    opts.append((0.4, lambda: do(["Fire", 0])))
+                g = d.tick
+                if g is not None and g.status != "done":
+                    if g.at[0] == "isset" and test_kind == "env":
+                        v = rnd.choice(["True", "True", "True", "False", "One", "Zero", "None", "raise"] if mon_kind == "death"
+                                       else ["False", "False", "False", "True", "One", "Zero", "None", "raise"])
+                    elif g.at[0] == "action":
+                        v = rnd.choice(["ok", "ok", "exc"])
+                    else:
+                        v = "-"
+                    opts.append((0.7, lambda v=v: do(["T", v])))
+            if not opts:
+                break
+            x = rnd.random() * sum(w for w, _ in opts)
+            for w, f in opts:
+                x -= w
+                if x <= 0:
+                    f()
+                    break
+        return trace
+    finally:
+        d.close()
+
+
+def random_per_run(rnd, last_action, interval_kind, max_steps):
+    d = PerDriver(last_action, interval_kind)
+    trace = []
+    try:
+        def do(label):
+            d.apply(label)
+            p = d.project()
+            trace.append([label[0], label[1], 0, [p["ppc"], p["pv"], p["pnorm"], p["plast"], p["pafter"], p["cancel"], p["nerr"],
+                                                 -1 if p["ppoll"] is None else int(p["ppoll"])]])
+            if p["other"]:
+                trace[-1][3].append(p["other"])
+        do(["Start", "-"])
+        p_cancel = rnd.choice([0.02, 0.05, 0.15])
+        p_fs = rnd.choice([0.0, 0.1, 0.6])
+        for _ in range(max_steps):
+            g = d.g
+            if g.status == "done":
+                break
+            if not d.cancel.flag and rnd.random() < p_cancel:
+                do(["Cancel", "-"])
+                continue
+            if g.runnable():
+                if g.at[0] == "action":
+                    x = rnd.random()
+                    do(["P", "fs" if x < p_fs else "exc" if x < p_fs + 0.2 else "ok"])
+                elif g.at[0] == "interval":
+                    do(["P", rnd.choice(["now", "later", "later"])])
+                else:
+                    do(["P", "-"])
+            else:
+                do(["Elapse", "-"])
+        return trace
+    finally:
+        d.close()
+
+
+def random_sim_run(rnd, scratch, max_steps):
+    d = SimDriver(scratch)
+    trace = []
+    raw = rnd.random() < 0.6
+    try:
+        def proj():
+            p = d.project()
+            return [p["srs"], p["srr"], p["sos"], p["sor"], p["sfe"], p["srun"], p["spoll"], p["snpoll"], p["sfile"], p["scall"], p["swait"],
+                    p["sseen"], p["lock"] != "-", p["skills"]]
+
+        def do(label, stepper=None):
+            r = stepper() if stepper is not None else d.apply(label)
+            trace.append([label[0], label[1], label[2] if label[0] == "Create" else (r if label[0] == "View" else 0), proj()])
+
+        def tstep(g, arg):
+            if arg == "timeout":
+                d.thread_step(g, wake="timeout")
+            elif raw and _may_raw(g) and rnd.random() < 0.8:
+                W.step(g)
+            else:
+                d.thread_step(g)
+
+        def how(g):
+            if g.status == "blocked":
+                return "-" if g.can_run() else ("timeout" if g.at[1].get("due") is not None else None)
+            return "-"
+        do(["Create", rnd.choice([0, 0, 3, 24, -15]), rnd.random() < 0.2])
+        p_kill = rnd.choice([0.0, 0.03, 0.1])
+        for _ in range(max_steps):
+            d._threads()
+            opts = []
+            g = d.run_g
+            if g.status != "done" and how(g) is not None:
+                opts.append((1.0, lambda g=g: do(["R", how(g), 0], lambda a=how(g): tstep(g, a))))
+            g = d.poll_g
+            if g.status != "done" and how(g) is not None:
+                opts.append((1.0, lambda g=g: do(["P", how(g), 0], lambda a=how(g): tstep(g, a))))
+            if d.caller is None or d.caller.status == "done":
+                opts.append((p_kill, lambda: do(["Kill", rnd.choice(["kill", "terminate"]), 0])))
+            elif d.caller.runnable():
+                opts.append((1.0, lambda: do(["K", "-", 0], lambda: d.thread_step(d.caller))))
+            if d.waiter is None:
+                opts.append((0.1, lambda: do(["WaitCall", "-", 0])))
+            elif d.waiter.runnable():
+                opts.append((0.5, lambda: do(["O", "-", 0], lambda: d.thread_step(d.waiter))))
+            opts.append((0.3, lambda: do(["View", "-", 0])))
+            x = rnd.random() * sum(w for w, _ in opts)
+            for w, f in opts:
+                x -= w
+                if x <= 0:
+                    f()
+                    break
+            if d.run_g.status == "done" and d.poll_g.status == "done" and (d.waiter is None or d.waiter.status == "done") and rnd.random() < 0.3:
+                break
+        return trace
+    finally:
+        d.close()
